@@ -6,6 +6,7 @@ from .sorts import *      # noqa
 from . import types as Ty
 from . import front
 from .front import Unsupported
+from .state import tid, sel_L
 from .state import (SV, const_sv, truthy, shape, field_type, KIND, CLS, cls_in, new_list, new_dict,
                     new_list_from_seq, alloc, elem_type, int_of, str_of, val_of, ghost, GHOSTS)
 from .execcall import builtin, method, BUILTIN_FUNCS
@@ -134,7 +135,7 @@ def b_len(ex, st, args, kwargs, node):
     if isinstance(ty, Ty.TBytes):
         return [(st, I(z3.Length(vy(v.term))))], []
     if isinstance(ty, (Ty.TList, Ty.TTuple)):
-        return [(st, I(z3.Length(st.L[va(v.term)])))], []
+        return [(st, I(z3.Length(sel_L(st, va(v.term)))))], []
     if isinstance(ty, (Ty.TDict, Ty.TSet)):
         return [(st, I(st.DSZ[va(v.term)]))], []
     if isinstance(ty, Ty.TInst):
@@ -179,7 +180,7 @@ def b_isinstance(ex, st, args, kwargs, node):
     v, cv = args
     # tuple display of classes: evaluated to a tuple SV whose elements are class values
     if isinstance(cv.ty, Ty.TTuple) and not cv.has_py:
-        elems = [SV(st.L[va(cv.term)][i], t) for i, t in enumerate(cv.ty.ts)]
+        elems = [SV(sel_L(st, va(cv.term))[i], t) for i, t in enumerate(cv.ty.ts)]
         specs = []
         for e in elems:
             specs.extend(_class_arg(ex, e))
@@ -322,7 +323,7 @@ def b_list(ex, st, args, kwargs, node):
     ty = Ty.strip_opt(v.ty)
     if isinstance(ty, (Ty.TList, Ty.TTuple)) and not isinstance(v.ty, Ty.TOpt):
         et = ty.t if isinstance(ty, Ty.TList) else Ty.ANY
-        return [(st, new_list_from_seq(st, st.L[va(v.term)], et))], []
+        return [(st, new_list_from_seq(st, sel_L(st, va(v.term)), et))], []
     if isinstance(ty, Ty.TSet) and not isinstance(v.ty, Ty.TOpt):
         # list(set): some sequence with exactly the set's members (order unspecified)
         a = va(v.term)
@@ -358,7 +359,7 @@ def b_set(ex, st, args, kwargs, node):
     ty = Ty.strip_opt(v.ty)
     if not isinstance(ty, (Ty.TList, Ty.TTuple)) or isinstance(v.ty, Ty.TOpt):
         raise Unsupported('set() of %r' % (v.ty,))
-    seq = st.L[va(v.term)]
+    seq = sel_L(st, va(v.term))
     ks = fresh('setks', KeySet)
     x = fresh('sx', Val)
     st.assume(z3.ForAll([x], ks[x] == z3.Contains(seq, z3.Unit(x))))
@@ -420,7 +421,7 @@ def m_join(ex, st, recv, args, kwargs, node):
     ty = Ty.strip_opt(v.ty)
     if not isinstance(ty, (Ty.TList, Ty.TTuple)):
         raise Unsupported('join over %r' % (v.ty,))
-    known = st.notes.get(('elems', str(v.term)))
+    known = st.notes.get(('elems', tid(v.term)))
     if known is not None and all(isinstance(e.ty, Ty.TStr) for e in known):
         # a list built in this function whose elements are statically known: the join is the concatenation
         if not known:
@@ -434,7 +435,7 @@ def m_join(ex, st, recv, args, kwargs, node):
     et = ty.t if isinstance(ty, Ty.TList) else Ty.join(*ty.ts[:2]) if len(ty.ts) >= 2 else (ty.ts[0] if ty.ts else Ty.STR)
     if isinstance(ty, Ty.TList) and not isinstance(et, Ty.TStr):
         raise Unsupported('join over a list of %r' % (et,))
-    return [(st, S(f_join(str_of(recv), st.L[va(v.term)])))], []
+    return [(st, S(f_join(str_of(recv), sel_L(st, va(v.term)))))], []
 
 
 @method('str', 'startswith')
@@ -522,9 +523,9 @@ def m_format(ex, st, recv, args, kwargs, node):
 @method('list', 'append')
 def m_append(ex, st, recv, args, kwargs, node):
     a = va(recv.term)
-    known = st.notes.pop(('elems', str(recv.term)), None)
+    known = st.notes.pop(('elems', tid(recv.term)), None)
     if known is not None:
-        st.notes[('elems', str(recv.term))] = known + [args[0]]
+        st.notes[('elems', tid(recv.term))] = known + [args[0]]
     old = st.L[a]
     new = z3.Concat(old, z3.Unit(args[0].term))
     st.L = z3.Store(st.L, a, new)
@@ -552,10 +553,10 @@ def m_extend(ex, st, recv, args, kwargs, node):
         v = SV(v.term, Ty.TList(Ty.ANY))
     if not isinstance(Ty.strip_opt(v.ty), (Ty.TList, Ty.TTuple)) or isinstance(v.ty, Ty.TOpt):
         raise Unsupported('extend with %r' % (v.ty,))
-    k1, k2 = st.notes.pop(('elems', str(recv.term)), None), st.notes.get(('elems', str(v.term)))
+    k1, k2 = st.notes.pop(('elems', tid(recv.term)), None), st.notes.get(('elems', tid(v.term)))
     if k1 is not None and k2 is not None:
-        st.notes[('elems', str(recv.term))] = k1 + k2
-    old, ext = st.L[a], st.L[va(v.term)]
+        st.notes[('elems', tid(recv.term))] = k1 + k2
+    old, ext = st.L[a], sel_L(st, va(v.term))
     new = z3.Concat(old, ext)
     st.L = z3.Store(st.L, a, new)
     if SP.BOUND[0] is None:
@@ -607,8 +608,8 @@ def m_copy(ex, st, recv, args, kwargs, node):
     st.DK = z3.Store(st.DK, n, st.DK[a])
     st.DV = z3.Store(st.DV, n, st.DV[a])
     st.DSZ = z3.Store(st.DSZ, n, st.DSZ[a])
-    if ('keys', str(recv.term)) in st.notes:
-        st.notes[('keys', str(VRef(n)))] = list(st.notes[('keys', str(recv.term))])
+    if ('keys', tid(recv.term)) in st.notes:
+        st.notes[('keys', tid(VRef(n)))] = list(st.notes[('keys', tid(recv.term))])
     return [(st, SV(VRef(n), recv.ty))], []
 
 
@@ -727,7 +728,7 @@ def b_zdecompress(ex, st, args, kwargs, node):
 def b_urlencode(ex, st, args, kwargs, node):
     """exact (E-URL) for a mapping whose keys are statically known: the k=v pairs joined by '&' in insertion order"""
     d = args[0]
-    keys = st.notes.get(('keys', str(d.term)))
+    keys = st.notes.get(('keys', tid(d.term)))
     if keys is None or kwargs or len(args) != 1:
         return [(st, S(fresh('urlencoded', StrS)))], []
     a = va(d.term)
